@@ -149,7 +149,10 @@ impl Ord for Number {
         if self.value < other.value {
             Ordering::Less
         } else if self.value == other.value {
-            Ordering::Equal
+            // Same value with different units is not equal, order by the unit name
+            self.unit
+                .map(|unit| unit.name())
+                .cmp(&other.unit.map(|unit| unit.name()))
         } else {
             Ordering::Greater
         }
